@@ -110,7 +110,13 @@ class MetadataManager:
                             f"Table at {self.table_path} was concurrently initialized"
                         ) from e
                 else:
-                    self.storage.write_file(self.HINT_PATH, metadata_file.encode("utf-8"))
+                    try:
+                        self.storage.write_file(self.HINT_PATH, metadata_file.encode("utf-8"))
+                    except Exception:
+                        if self.storage.atomic_write_failures:
+                            # Guaranteed not visible: v0 was never published.
+                            self._discard_unpublished_metadata(metadata_path)
+                        raise
 
                 self.current_version = 0
                 return metadata
@@ -243,15 +249,28 @@ class MetadataManager:
                 # PHASE 3.5: Fencing - re-validate lock ownership immediately
                 # before the commit point. A holder whose lease was broken (e.g.
                 # after a long pause) must not flip the hint.
-                if not self.lock_provider.is_held():
-                    raise ConcurrentModificationException(
-                        "Lost distributed lock before commit point; retrying"
-                    )
+                try:
+                    if not self.lock_provider.is_held():
+                        raise ConcurrentModificationException(
+                            "Lost distributed lock before commit point; retrying"
+                        )
 
-                # PHASE 4: Atomically make new version visible.
-                # This is the commit point - after this, the new metadata is visible.
-                # If we crash before this, the new metadata file is orphaned but table is consistent.
-                self._write_hint_at_commit_point(metadata_file, hint_etag)
+                    # PHASE 4: Atomically make new version visible.
+                    # This is the commit point - after this, the new metadata is visible.
+                    # If we crash before this, the new metadata file is orphaned but table is consistent.
+                    self._write_hint_at_commit_point(metadata_file, hint_etag)
+                except AmbiguousCommitError:
+                    # The hint may name the new file: it must stay.
+                    raise
+                except Exception:
+                    # Clean failure (lost lock, CAS conflict, hint write that is
+                    # guaranteed not visible): the new version was never
+                    # published and the caller rolls back its data files.
+                    # Leaving the metadata file behind would let hint recovery
+                    # ("highest version on disk") surface a version that was
+                    # never committed once the hint is lost.
+                    self._discard_unpublished_metadata(metadata_path)
+                    raise
 
                 # Success - update in-memory version
                 self.current_version = next_version
@@ -340,6 +359,15 @@ class MetadataManager:
             raise AmbiguousCommitError(
                 f"Version hint write failed ambiguously: {e}"
             ) from e
+
+    def _discard_unpublished_metadata(self, metadata_path: str) -> None:
+        """Best-effort removal of a metadata file whose commit point cleanly
+        failed (it was never named by the version hint). Never raises: the
+        original failure is what the caller must see."""
+        try:
+            self.storage.delete_file(metadata_path)
+        except Exception as e:
+            logger.warning(f"Failed to remove unpublished metadata file {metadata_path}: {e}")
 
     def _release_lock_safely(self) -> None:
         """Release the distributed lock without ever raising."""
